@@ -28,12 +28,15 @@ def conv(w, flt):
 def mk_wfsa(m, cls="field", flt=False):
     C = FieldWFSA if cls == "field" else BaseWFSA
     a = C(Float)
+    # optional state naming: states that look like the tags the library itself uses when it renames operands apart
+    tag = m.get("names")
+    nm = (lambda q: q) if tag is None else (lambda q: (tag, q))
     for q, w in m["init"]:
-        a.add_I(q, conv(w, flt))
+        a.add_I(nm(q), conv(w, flt))
     for q, w in m["final"]:
-        a.add_F(q, conv(w, flt))
+        a.add_F(nm(q), conv(w, flt))
     for i, s, j, w in m["arcs"]:
-        a.add_arc(i, sym(s), j, conv(w, flt))
+        a.add_arc(nm(i), sym(s), nm(j), conv(w, flt))
     return a
 
 
